@@ -2,6 +2,7 @@ import FxVerif.Proofs.C06
 import FxVerif.Proofs.C05Sorted
 import FxVerif.Proofs.C05Ext
 import FxVerif.Proofs.C05Orig
+import FxVerif.Proofs.C05Sol
 /-!
 # C05 — every outgoing transfer is in exactly one place and is settled exactly once
 
@@ -385,19 +386,20 @@ theorem batch_nonce_fresh (s0 : State) (h0 : IsInit s0) (ops : List Op) :
     (∀ t mf bf fr s' n, doReqBatch s t mf bf fr = (s', .ok n) → ∀ b ∈ x.created, b.nonce ≠ n) ∧
     (∀ a r to d m cs s' n, doBridgeCall s a r to d m cs = (s', .ok n) → ∀ c ∈ x.createdCalls, c.nonce ≠ n) := by
   have hn := N_run (N_init h0) ops
+  rw [runExt_eq]
   simp only
   refine ⟨runExt_fst _ _ _, hn.nonces, by rw [hn.nonces]; exact nodup_range', hn.sub, hn.cnonces,
     by rw [hn.cnonces]; exact nodup_range', hn.csub, ?_, ?_⟩
   · intro t mf bf fr s' n h b hb hbn
     have h1 := (reqBatch_ok h).1
-    have h2 : b.nonce ∈ range' 1 ((runExt s0 {} ops).1.nextBatchId - 1) := by
+    have h2 : b.nonce ∈ range' 1 ((runExtStd s0 {} ops).1.nextBatchId - 1) := by
       rw [← hn.nonces]; exact mem_map_of_mem hb
     simp only [mem_range'_1] at h2
     have := hn.npos
     omega
   · intro a r to d m cs s' n h c hc hcn
     obtain ⟨_, _, h1⟩ := queued_is_supplied_call _ _ a r to d m cs n h
-    have h2 : c.nonce ∈ range' 1 ((runExt s0 {} ops).1.nextCallId - 1) := by
+    have h2 : c.nonce ∈ range' 1 ((runExtStd s0 {} ops).1.nextCallId - 1) := by
       rw [← hn.cnonces]; exact mem_map_of_mem hc
     simp only [mem_range'_1] at h2
     have := hn.cpos
@@ -415,7 +417,7 @@ theorem observed_execution_settles (s0 : State) (h0 : IsInit s0) (ops : List Op)
       (doObserve (run s0 ops) h (.batch t n)).2 = .ok ((run s0 ops).eventNonce + 1) ∧
       ∀ tx ∈ b.txs, ∀ ops2 : List Op, ∀ e ∈ (run s0 (ops ++ [.observe h (.batch t n)] ++ ops2)).settled,
         e.isCall = false → e.id = tx.id → e.how = .executed := by
-  obtain ⟨ha1, ha2⟩ := admissibleRun_append ha
+  obtain ⟨ha1, ha2⟩ := admissibleRun_append ((admissibleRun_iff _ _ _).mp ha)
   have hj := J_run (J_init h0) ops ha1
   rw [runExt_fst] at hj
   obtain ⟨b, hb, hbt, hbn, hok, hlog⟩ := admissible_execution_applies_aux hj ha2.1
@@ -445,6 +447,7 @@ theorem queued_is_supplied_always (s0 : State) (h0 : IsInit s0) (ops : List Op) 
   have hq := QI_run (Q_init h0) (inv_init h0) ops
   have hn := N_run (N_init h0) ops
   rw [runExt_fst] at hq hn
+  rw [runExt_eq]
   simp only
   exact ⟨hq.queued, by rw [hq.sentIds]; exact nodup_range', hn.sub, hn.csub⟩
 
@@ -462,10 +465,146 @@ theorem refund_is_what_was_paid (s0 : State) (h0 : IsInit s0) (ops : List Op) :
   have hq := QI_run (Q_init h0) (inv_init h0) ops
   have hr := RN_run (R_init h0) (N_init h0) ops
   rw [runExt_fst] at hq hr
+  rw [runExt_eq]
   simp only
   refine ⟨hq.refunds, fun e he hc hh => ?_⟩
   obtain ⟨c, hcm, h1, h2⟩ := hr.calls e he hc
   exact ⟨c, hcm, h1.symm, (h2 hh).1, (h2 hh).2⟩
+
+/-! ## round 3: entries created through the precompiles (ERC-20 origin) -/
+
+/-- origin marks and refund form, as read from `/repo` now: `MsgBridgeCall` marks its record as from-message, the
+`bridgeCall` precompile does not; a refund converts the coins to ERC-20 unless the mark is there; deleting the record
+deletes the mark; the `crossChain` precompile records an outgoing-transfer relation for the id it was given; a cancel of
+such an entry refunds ERC-20 and deletes the relation; an executed batch deletes the relations of its transfers -/
+theorem source_shapes_origin :
+    msgBridgeCallSetsFromMsg = true ∧ precompileBridgeCallSetsFromMsg = false ∧ callRefundEvmUnlessFromMsg = true ∧
+    deleteRecordDropsFromMsg = true ∧ precompileSendSetsRelation = true ∧ cancelRefundHook = true ∧
+    executedDeletesRelation = true := by decide
+
+/-- `queued_is_supplied`, the data flow of the two precompiles (regenerated from the Go AST): the `bridgeCall` precompile
+hands `AddOutgoingBridgeCall` its caller, `args.Refund`, the converted coins, `args.To`, `args.Data`, `args.Memo`; the
+`crossChain` precompile hands its caller, `args.Receipt`, amount and fee through `handlerCrossChain` and
+`outgoingTransfer` to `AddToOutgoingPool`, parameter by parameter -/
+theorem supplied_fields_reach_the_record_precompile :
+    (["sender", "refundAddr", "baseCoins", "to", "data", "memo"].map (argOf bridgeCallAddParams bridgeCallPrecompileArgs)) =
+      [some "sender", some "args.Refund", some "baseCoins", some "args.To", some "args.Data", some "args.Memo"] ∧
+    (["from", "receipt", "amount", "fee"].map (argOf sendPrecompileHandlerParams sendPrecompileArgs)) =
+      [some "sender.Bytes()", some "args.Receipt", some "amountCoin", some "feeCoin"] ∧
+    (["from", "to", "amount", "fee"].map (argOf sendPrecompileTransferParams sendPrecompileTransferArgs)) =
+      [some "from.Bytes()", some "receipt", some "amount", some "fee"] ∧
+    (["sender", "receiver", "amount", "fee"].map (argOf sendAddParams sendPrecompilePoolArgs)) =
+      [some "from", some "to", some "amount", some "fee"] := by decide
+
+/-- `queued_is_supplied` (crossChain precompile): what enters the pool is exactly what the caller supplied, under the
+fresh id; the caller pays exactly amount + fee, out of its ERC-20 balance; the id gets the outgoing-transfer relation -/
+theorem queued_is_supplied_psend (s s' : State) (a : Addr) (d : String) (t : Token) (am f n : Nat)
+    (h : doPSend s a d t am f = (s', .ok n)) :
+    n = s.nextTxId ∧ s'.nextTxId = s.nextTxId + 1 ∧
+    s'.pool.Perm (⟨s.nextTxId, a, d, t, am, f⟩ :: s.pool) ∧ s'.batches = s.batches ∧ s'.settled = s.settled ∧
+    (∀ k, getBal s'.bal k = if k = (a, t) then getBal s.bal k - (am + f) else getBal s.bal k) ∧
+    (∀ k, getBal s'.erc k = if k = (a, t) then getBal s.erc k - (am + f) else getBal s.erc k) ∧
+    am + f ≤ getBal s.erc (a, t) ∧ s'.relTx = s.relTx ++ [s.nextTxId] := by
+  have hr : precompileSendSetsRelation = true := by decide
+  unfold doPSend at h
+  split at h
+  · cases h
+  · split at h
+    · cases h
+    · cases h
+      refine ⟨rfl, rfl, insertDesc_perm _ _, rfl, rfl, fun k => ?_, fun k => ?_, by omega, by simp [hr]⟩
+      · simp only [getBal_subBal]
+        split <;> simp_all
+      · simp only [getBal_subBal]
+        split <;> simp_all
+
+/-- `queued_is_supplied` (bridgeCall precompile): the stored record carries exactly the caller, refund address, tokens
+(in the caller's order), target, call data and memo supplied, under the fresh nonce, and is not marked from-message -/
+theorem queued_is_supplied_pcall (s s' : State) (a r : Addr) (to d m : String) (cs : List (Token × Nat)) (n : Nat)
+    (h : doPCall s a r to d m cs = (s', .ok n)) :
+    ∃ timeout, s'.calls = s.calls ++ [⟨s.nextCallId, a, r, cs, to, d, m, timeout, s.fxHeight⟩] ∧ n = s.nextCallId ∧
+      s'.fromMsg = s.fromMsg ∧ debitAll s.nTokens a cs s.erc = some s'.erc ∧ debitAll s.nTokens a cs s.bal = some s'.bal := by
+  have hm : precompileBridgeCallSetsFromMsg = false := by decide
+  unfold doPCall at h
+  split at h
+  · rename_i erc' bal' h1 h2
+    simp only at h
+    split at h
+    · cases h
+    · cases h
+      exact ⟨_, rfl, rfl, by simp [hm], h1, h2⟩
+  · cases h
+
+/-- and the message marks its record: `MsgBridgeCall` → from-message -/
+theorem bridgeCall_marks_from_msg (s s' : State) (a r : Addr) (to d m : String) (cs : List (Token × Nat)) (n : Nat)
+    (h : doBridgeCall s a r to d m cs = (s', .ok n)) : s'.fromMsg = s.fromMsg ++ [n] ∧ s'.erc = s.erc := by
+  have hm : msgBridgeCallSetsFromMsg = true := by decide
+  unfold doBridgeCall at h
+  split at h
+  · cases h
+  · split at h
+    · cases h
+    · simp only at h
+      split at h
+      · cases h
+      · cases h
+        exact ⟨by simp [hm], rfl⟩
+
+/-- `refund_exact`, the form of a bridge-call refund: the refund address gets, per token, exactly the record's amounts;
+as ERC-20 (its ERC-20 balance grows by the same amounts) iff the record is not marked from-message, i.e. it was created
+by the `bridgeCall` precompile; nobody else's ERC-20 balance moves -/
+theorem refund_form_call (s : State) (c : Call) (a : Addr) (t : Token) :
+    getBal (refundCall s c).erc (a, t) = getBal s.erc (a, t) +
+      (if a = c.refund ∧ c.nonce ∉ s.fromMsg then creditOf t c.tokens else 0) ∧
+    (refundCall s c).fromMsg = s.fromMsg := by
+  have h1 : callCleanupRefunds = true := by decide
+  have h2 : callRefundEvmUnlessFromMsg = true := by decide
+  have h3 : callRefundReceiver = .refund := by decide
+  refine ⟨?_, rfl⟩
+  by_cases hm : c.nonce ∈ s.fromMsg
+  · simp [refundCall, h1, h2, hm]
+  · simp [refundCall, h1, h2, hm, getBal_creditAll, callRefundTo, h3]
+
+/-- `refund_exact`, the form of a cancel refund: the creator gets amount + fee; as ERC-20 iff the entry has the
+outgoing-transfer relation (it was created through the `crossChain` precompile); the relation is gone afterwards -/
+theorem refund_form_cancel (s s' : State) (id : Nat) (who : Addr) (n : Nat) (h : doCancel s id who = (s', .ok n)) :
+    ∃ tx, tx ∈ s.pool ∧ tx.id = id ∧
+      (∀ k, getBal s'.erc k = if k = (who, tx.token) ∧ id ∈ s.relTx then getBal s.erc k + (tx.amount + tx.fee)
+        else getBal s.erc k) ∧
+      id ∉ s'.relTx ∧ (∀ i ∈ s.relTx, i ≠ id → i ∈ s'.relTx) := by
+  have hk : cancelRefundHook = true := by decide
+  have hterms : ∀ tx : Tx, refundAmount tx = tx.amount + tx.fee := by
+    intro tx; simp [refundAmount, cancelRefundTerms]
+  unfold doCancel at h
+  split at h
+  · cases h
+  · split at h
+    · cases h
+    · rename_i tx hf
+      split at h
+      · cases h
+      · cases h
+        have hid : tx.id = id := by simpa using find?_some hf
+        refine ⟨tx, mem_of_find?_eq_some hf, hid, fun k => ?_, ?_, ?_⟩
+        · by_cases hr : id ∈ s.relTx
+          · simp only [hk, Bool.true_and, hid, List.contains_iff_mem, hr, if_true, getBal_addBal, hterms, and_true]
+            split <;> simp_all
+          · simp [hk, hid, hr]
+        · simp [hk, hid]
+        · intro i hi hne
+          simp [hk, hid, hi, hne]
+
+/-- non-vacuity: a precompile-originated transfer cancelled (ERC-20 refunded), a precompile-originated bridge call timed
+out (ERC-20 refunded to its refund address) next to a message-originated one (coins only) -/
+example : ∃ ops : List Op, let s := run { init 1 [((0, 0), 100), ((1, 0), 100)] {} with erc := [((0, 0), 40), ((1, 0), 40)] } ops
+    getBal s.erc (0, 0) = 40 - 7 ∧ getBal s.erc (1, 0) = 40 - 5 + 5 ∧ getBal s.erc (7, 0) = 7 ∧ getBal s.bal (7, 0) = 7 + 3 ∧
+    s.relTx = [] ∧ s.fromMsg = [] ∧ s.calls = [] := by
+  refine ⟨[.observe 1000 .other,
+           .psend 1 "0x0000000000000000000000000000000000000001" 0 5 0, .cancel 1 1,
+           .pcall 0 7 "0x0000000000000000000000000000000000000001" "ab" "" [(0, 7)],
+           .bridgeCall 0 7 "0x0000000000000000000000000000000000000001" "ab" "" [(0, 3)],
+           .observe 41320 .other], ?_⟩
+  decide
 
 /-- non-vacuity of the environment hypothesis: an admissible run in which two batches of different tokens are in flight
 and the later one is executed first, then the earlier one -/
